@@ -196,6 +196,30 @@ Theorem C08_sweep_and_orders_as_in_the_sources :
 Proof. exact (conj gc_sweep_as_in_the_sources load_and_delete_order_as_in_the_sources). Qed.
 Print Assumptions C08_sweep_and_orders_as_in_the_sources.
 
+(* the control flow around the effects (kind callguards): Store.tag registers the digest entry first
+   iff the reference is not the digest ([is_digest_ref] in st_tag) and saves iff AutoSaveIndex
+   ([maybe_save]); delete() drops the references of the target's DIGEST and saves iff something
+   changed and AutoSaveIndex ([changed] in delete1); GC saves iff AutoSaveIndex; Push tags manifests
+   only and removes content it cannot index; Tag indexes manifests only; loadIndex registers the tag
+   iff the ref name is not empty ([load_entry]) *)
+Theorem C08_guards_as_in_the_sources :
+  c08_guards_tag =
+    [(b "s.tagResolver.Tag"%string, [b "reference != dgst"%string]); (b "s.tagResolver.Tag"%string, []); (b "s.saveIndex"%string, [b "s.AutoSaveIndex"%string])] /\
+  c08_guards_Untag =
+    [(b "s.tagResolver.Untag"%string, []); (b "s.saveIndex"%string, [b "s.AutoSaveIndex"%string])] /\
+  c08_guards_delete =
+    [(b "s.tagResolver.Untag"%string, [b "desc.Digest == target.Digest"%string]); (b "s.tagResolver.Tag"%string, []); (b "s.saveIndex"%string, [b "indexChanged && s.AutoSaveIndex"%string]); (b "s.storage.Delete"%string, [])] /\
+  c08_guards_GC =
+    [(b "s.gcIndex"%string, []); (b "s.tagResolver.Tag"%string, []); (b "s.saveIndex"%string, [b "s.AutoSaveIndex"%string])] /\
+  c08_guards_Push =
+    [(b "s.storage.Push"%string, []); (b "s.graph.Index"%string, []); (b "s.storage.Delete"%string, [b "err != nil"%string]); (b "s.tag"%string, [b "descriptor.IsManifest(expected)"%string])] /\
+  c08_guards_Tag =
+    [(b "s.storage.Exists"%string, []); (b "s.graph.Index"%string, [b "descriptor.IsManifest(desc)"%string]); (b "s.tag"%string, [])] /\
+  c08_guards_loadIndex =
+    [(b "tagger.Tag"%string, []); (b "tagger.Tag"%string, [b "ref != ''"%string]); (b "graph.IndexAll"%string, [])].
+Proof. exact guards_as_in_the_sources. Qed.
+Print Assumptions C08_guards_as_in_the_sources.
+
 (* any number of threads, each running any list of index-saving operations (registrations in
    the resolver followed by saveIndex as in the sources), under EVERY schedule: once all have
    returned, index.json is saveIndex of the live resolver map, i.e. its projection *)
